@@ -9,8 +9,9 @@ props = [pid]
 for a in sys.argv:
     if a.startswith('--props'):
         props = a.split('=')[1].split(',')
-dst = f'{V}/seeded/{pid}-{k}'
-src = f'/tmp/seed_out/{pid}/{k}'
+rnd = os.environ.get('SEED_ROUND', '')        # '' = first round (/tmp/seed_out), '2' = second round (/tmp/seed2_out) …
+dst = f'{V}/seeded/{pid}-{k}' if not rnd else f'{V}/seeded/{pid}-r{rnd}-{k}'
+src = f'/tmp/seed{rnd}_out/{pid}/{k}'
 if os.path.isdir(src):
     os.makedirs(dst, exist_ok=True)
     for f in ('patch.diff', 'demo.rs', 'meta.json'):
